@@ -1,5 +1,5 @@
 """C12 — fixed-size hint, reset and the generator's error contract (structural clauses)."""
-from ..rules import generator as gen, piece, errflow, summary
+from ..rules import generator as gen, piece, errflow, summary, beliefs
 
 EXPL = ("Decides, on the type-checked MIR of /repo: (1) SA-FIELDS: Generator::reset and BlockHashContext::reset give every field the "
         "same symbolic value as new(), except three reasoned exceptions each with a structural side condition (h_last only used under "
@@ -29,6 +29,8 @@ def run(ctx):
         ctx.guard("C12", "init", lambda: piece.initial_state(ctx, prog))
         ctx.guard("C12", "summaries", lambda: summary.check(ctx, prog, 'Generator::(new|set_fixed_input_size_in_usize)$|<internals::generate::Generator as core::default::Default|generate_easy', floor=2))
         ctx.guard("C12", "path summaries", lambda: summary.check_paths(ctx, prog, 'Generator::(new|set_fixed_input_size_in_usize)$|<internals::generate::Generator as core::default::Default|generate_easy', floor=0))
+        if c in ("dbg", "unsafe_dbg", "strict_dbg"):
+            ctx.guard("C12", "beliefs", lambda: beliefs.census(ctx, prog, beliefs.SCOPES["C12"][0], floor=beliefs.SCOPES["C12"][1]))
         if c != "nodef":
             # the front ends that declare a size on the caller's behalf declare the right one (buffer length / metadata of the opened file)
             ctx.guard("C12", "buf", lambda: errflow.buf(ctx, prog))
